@@ -172,6 +172,17 @@ CHECKS["C19"] = (
     "cond(J) > 1e6 skipped; kink-tagged families sampled off their knots; composites get the sum of their parts' magnitudes.",
     "DESIGN.md section 3 C19")
 
+CHECKS["C18"] = (
+    "icontract post-conditions (named predicates) installed at class level on the real Distribution.log_prob / sample / "
+    "sample_and_log_prob and Flow.sample_and_log_prob, driven over all distribution and flow classes x num_samples x batch_size x "
+    "context; documented-rejection probes; duplicate-draw and two-sample KS monitors for batched generation",
+    "Shapes [rows] / [n,*event] / [rows,n,*event] are asserted on every call (incl. the library's internal ones) for num_samples 1,2,5,7 x "
+    "batch_size none,1,2,3,5,7,8 x context none / 1 / 3 rows / embedding net x event shapes [1],[2],[3],[2,3],[2,1,2]; valid calls must not "
+    "raise; mismatching context rows must give ValueError and counts in {0,-1,2.0,'3',None} TypeError; batched sampling must not "
+    "repeat draws nor change their law (KS at alpha 1e-9 on 1500 draws).",
+    "Contract evaluation counts are reported and zero evaluations make the run inconclusive; bool counts not probed (bool is an int).",
+    "DESIGN.md section 3 C18")
+
 PENDING_REASON = "check not built yet in this session (planned, see DESIGN.md section 3); not claimed until it exists and is calibrated"
 
 
